@@ -12,10 +12,10 @@ CLAIMS = {
  "C02": ("Lean theorems: for every value of every supported type, every X.690 content encoding of it (INTEGERs with up to 8 octets incl. redundant sign octets, unsigned 32/64-bit values with leading zero octets, sub-identifiers up to 2^32-1), every definite length form (short or long with 1..8 length octets) and every position (arbitrary following octets), SnmpValue::from_ber returns a value that IntoPyObject turns into exactly the Python object the encoding denotes (independent Spec.derOid / dotted / twos / beNat), consuming exactly the TLV; a varbind list of any length with per-item length forms is recovered in order; a one-varbind response delivers py(value) through get; REAL: special values, NR2/NR3 text passed exactly to the float parser, and the binary form (sign, base 2/8/16, scaling factor, two's complement exponent of 1..3 octets, mantissa up to 8 octets) decodes to ± N * 2^(E*log2 B + F) (real_binary_sound; repaired by fix 456348d). E2E with ground-truth values through get / get_many / getnext / getbulk on every session kind and through the real sync and async clients.",
          TB + "the single rounding to binary64 (Rust f64::from_str for decimal text, SnmpReal::ldexp for the binary form) is compared with exact arithmetic (Python float() / Fraction) on every run, not proved; PyO3 constructors.",
          "Lean 4 proof (decoder soundness against an independent X.690 reading, induction over the varbind list) + ground-truth e2e oracle + correspondence", "§7 C02"),
- "C03": ("Lean theorems: for every v1/v2c session state, call and buffer contents the emitted datagram is exactly the independent minimal encoding (Lemmas.EncSpec) of version, community, PDU type of the call, masked request-id, zero error fields and the requested OIDs in order bound to NULL, or the call fails and nothing is sent; the result does not depend on what the pooled buffer held before (history_free, pool_reset); request ids are in 0..2^31-1; fetch / max-repetitions policy. v3: the same statement through pushV3_spec in the C09 theorems; every datagram of random multi-session histories is re-read by an independent strict decoder and replayed byte-for-byte (HMAC and ciphertext included) on the Lean model.",
-         TB + "rand (ids are inputs), the pool mutex; the v3 wire theorem lives in C09 (auth_wire / noauth_wire).",
+ "C03": ("Lean theorems: for every v1/v2c session state, call and buffer contents the emitted datagram is exactly the independent minimal encoding (Lemmas.EncSpec) of version, community, PDU type of the call, masked request-id, zero error fields and the requested OIDs in order bound to NULL, or the call fails and nothing is sent; the result does not depend on what the pooled buffer held before (history_free, pool_reset); request ids are in 0..2^31-1; fetch / max-repetitions policy. v3 (wire_v3, wire_v3_priv): the datagram is exactly the independent encoding encV3 of version 3, the masked msgID, msgMaxSize, msgFlags (auth / priv from the session's keys, reportable only for the probe), USM model, the session's engine id / boots / time / user, and the scoped PDU (engine id, empty context name, PDU of the call) — or the OCTET STRING of the ciphertext the key object returned, with the salt as msgPrivacyParameters — with the 12 placeholder octets replaced by the HMAC when the session signs; too large => OutOfBuffer and nothing is sent. Every datagram of random multi-session histories is re-read by an independent strict decoder and replayed byte-for-byte (HMAC and ciphertext included) on the Lean model.",
+         TB + "rand (ids are inputs), the pool mutex (histories are sequential).",
          "Lean 4 proof (encoder refinement to an independent DER spec, frame independence) + e2e oracle + session-level correspondence", "§7 C03"),
- "C04": ("Lean theorems about the receive loop for ANY datagram sequence: a PDU is delivered only if the datagram decodes as the session's version and community (v1/v2c) or user, engine id and msgID (v3) match and the request-id equals the single stored id, which every send overwrites (latest_only); a well-formed non-matching message is skipped and the loop continues on the rest of the sequence; an undecodable datagram ends the call with a decode error; an exhausted queue yields WouldBlock. E2E: scripts of 1..4 requests with 13 fault kinds, expected outcome computed from the ids on the wire, and replay on the model.",
+ "C04": ("Lean theorems about the receive loop for ANY datagram sequence: a PDU is delivered only if the datagram decodes as the session's version and community (v1/v2c) or user, engine id and msgID (v3) match and the request-id equals the single stored id, which every send overwrites (latest_only); a well-formed non-matching message is skipped and the loop continues on the rest of the sequence; an undecodable datagram ends the call with a decode error; an exhausted queue yields WouldBlock; history_sound: in EVERY history of sends and receives a PDU handed to the caller carries the request id of the most recent send (or is a Report), receiving never changes the outstanding id. E2E: scripts of 1..4 requests with 13 fault kinds, expected outcome computed from the ids on the wire, and replay on the model.",
          TB + "the kernel UDP queue (sequences are inputs); Reports bypass the request-id check by design (C07).",
          "Lean 4 proof (invariant over arbitrary datagram sequences) + fault-script oracle + correspondence", "§7 C04"),
  "C09": ("Lean theorems: for every message, key and buffer history the datagram of an authenticated session equals the independent encoding with the 12 placeholder octets replaced by Spec.hmac96 (RFC 2104 over the whole message with the field zeroed) — the bookmark is proved to be the offset of the placeholder for every field width and long-form length; flags carry auth iff the session has a key; without a key the field is empty. E2E: every datagram of random histories re-verified with Python hmac/hashlib under independently derived keys.",
@@ -33,11 +33,11 @@ CLAIMS = {
  "C13": ("Lean theorems about unwrap_pdu and set_keys for every session state and incoming message: an empty engine id is replaced by the one of the first accepted message and never changes afterwards; boots and time are those of the most recent accepted message and untouched by skipped ones; every request is stamped with the stored engine id (USM and context), boots, time and user; set_keys localizes to the stored engine id; probe = empty reportable GET. E2E: the real sync and async SnmpSession with and without engine id against an agent whose clock moves between replies.",
          TB + "the Python refresh() sequencing is exercised, not modelled.",
          "Lean 4 proof (state-machine invariants) + e2e oracle (sync + async clients) + correspondence", "§7 C13"),
- "C14": ("Lean theorems: every encrypt advances the per-key counter by exactly one modulo 2^32 (DES) / 2^64 (AES), also when it fails; the transmitted msgPrivacyParameters are boots||counter resp. the 64-bit counter (8 octets, injective in the counter), hence any two of fewer than 2^32 / 2^64 messages of one key installation differ; the priv flag is set iff the session has a privacy key; everything outside msgData depends only on the ciphertext's length (frame_request_independent). E2E: salt sequences of sessions and bare cipher objects, plaintext-window search outside the ciphertext.",
+ "C14": ("Lean theorems: every encrypt advances the per-key counter by exactly one modulo 2^32 (DES) / 2^64 (AES), also when it fails; the transmitted msgPrivacyParameters are boots||counter resp. the 64-bit counter (8 octets, injective in the counter), hence (sequence_distinct) over ANY sequence of encrypt calls of one key installation — any requests, any boots / time, failed calls in between — two messages fewer than 2^32 / 2^64 calls apart carry different msgPrivacyParameters; the priv flag is set iff the session has a privacy key; everything outside msgData depends only on the ciphertext's length (frame_request_independent). E2E: salt sequences of sessions and bare cipher objects, plaintext-window search outside the ciphertext.",
          TB + "ciphertext opacity is the cipher's property, not proved; rand seeds the counter (any seed).",
          "Lean 4 proof (counter invariant over call histories, injectivity) + e2e oracle + correspondence", "§7 C14"),
- "C05": ("Lean theorem: composed with an RFC 3416 GetNext agent over ANY finite strictly sorted MIB (independent Spec.agentNext / Spec.subtree), the library's GetNext walk from any valid base yields exactly the entries strictly below the base, in order, each once, then stops; supporting theorems: byte-prefix = arc-prefix and cmp_arcs = arc order on canonical encodings, end-of-MIB answers stop the walk, fetch policy. GetBulk, fetch, sync/async and v1/v2c/v3 equivalence: e2e against an RFC agent simulator over random MIBs with an independent subtree oracle (plus the C06 safety theorems for GetBulk).",
-         TB + "GetBulk completeness is decided by the e2e oracle and the C06 theorems, not by a composition theorem (partial); asyncio, sockets not modelled.",
+ "C05": ("Lean theorem: composed with an RFC 3416 GetNext agent over ANY finite strictly sorted MIB (independent Spec.agentNext / Spec.subtree), the library's GetNext walk from any valid base yields exactly the entries strictly below the base, in order, each once, then stops; the same for GetBulk with any max-repetitions n >= 1 against the RFC 3416 4.2.3 agent (next n successors, endOfMibView padding once the MIB is exhausted): getbulk_walk, and bulk_eq_next (both walks yield the subtree); the agent hypothesis is shown satisfiable (agent_exists, encoding of valid OIDs is injective). Supporting theorems: byte-prefix = arc-prefix and cmp_arcs = arc order on canonical encodings, end-of-MIB answers stop the walk, fetch policy. fetch, sync/async and v1/v2c/v3 equivalence: e2e against an RFC agent simulator over random MIBs with an independent subtree oracle.",
+         TB + "the Python iterator classes are modelled (Walk.drain / bulkWalk / agentWalk) and compared e2e; asyncio, sockets not modelled.",
          "Lean 4 proof (refinement to an abstract agent/subtree spec, induction over the sorted MIB) + e2e oracle + correspondence", "§7 C05"),
  "C06": ("Lean theorems for an ARBITRARY agent (any list of reply PDUs): every yielded OID is inside the subtree; yields are strictly increasing in sub-identifier order (cmp_arcs proved irreflexive and transitive), hence never repeated; each follow-up request names the last accepted OID; empty / non-data / out-of-subtree / non-increasing replies end the walk; for GetNext and GetBulk including the Python iterator wrappers. E2E with hostile scripts through the raw API, the sync iterators and the async client against an independent walk specification with an iteration cap.",
          TB + "Python iterator classes are modelled (Walk.walkNext / walkBulk) and compared e2e.",
@@ -48,15 +48,15 @@ CLAIMS = {
  "C08": ("Lean theorems over all byte strings: every accepted text is transmitted as exactly the X.690 content of the arcs its parts denote (sound), canonical text of every valid OID is accepted (complete) and prints back identically, every other text is refused with InvalidData and never panics; the five-way arc encoder equals the minimal base-128 form. Independent Spec.derOid / Spec.dotted. Correspondence + independent denotation oracle on generated and malformed texts.",
          TB + "Rust u32::from_str / split / Display modelled and compared.",
          "Lean 4 proof (soundness + completeness against an independent DER spec) + differential correspondence", "§7 C08"),
- "C15": ("Lean theorems: for every i64 the INTEGER encoder writes the minimal two's complement form (X.690 8.3.2) and the decoder inverts it; push_tag_len writes the minimal length form and the header parser inverts it for all lengths < 65536; OID / OCTET STRING / NULL and every Get/GetNext/GetBulk v1/v2c message that fits the buffer round-trip through the library's own decoder. Correspondence + independent minimal encoder / strict decoder on exhaustive small integers, boundary neighbourhoods and generated messages.",
-         TB + "v3 message round trip is covered by the correspondence stream only in this check.",
+ "C15": ("Lean theorems: for every i64 the INTEGER encoder writes the minimal two's complement form (X.690 8.3.2) and the decoder inverts it; push_tag_len writes the minimal length form and the header parser inverts it for all lengths < 65536; OID / OCTET STRING / NULL, every Get/GetNext/GetBulk v1/v2c message and every v3 message (any flags, USM parameters, plaintext scoped PDU or ciphertext; usm_roundtrip, msgdata_roundtrip, msg_v3) round-trip through the library's own decoder. Correspondence + independent minimal encoder / strict decoder on exhaustive small integers, boundary neighbourhoods and generated messages.",
+         TB,
          "Lean 4 proof (encoder specification + decoder inverse) + differential correspondence", "§7 C15"),
  "C16": ("Lean theorems: generic from_ber of every typed decoder, SnmpValue (REAL included) and the header parser return the same value and exactly the appended bytes as remainder for every (x, s); the header is determined by its own octets and a declared length exceeding the available octets yields Incomplete; bytes after a v1/v2c/v3 message or after a response varbind list yield TrailingData. Metamorphic oracle on the real decoders (append / truncate).",
          TB, "Lean 4 proof (locality lemmas) + metamorphic oracle + correspondence", "§7 C16"),
  "C17": ("Lean theorems: every sequence of buffer operations keeps the position inside the array; under the operations the library uses no unwritten cell is exposed (the bare pub skip does expose them: proved hazard, no call site); a v1/v2c request fails with OutOfBuffer iff its encoding exceeds the capacity and is otherwise complete; capacity < 65536. Op-sequence correspondence against the Lean model and a Vec-backed shadow; sizes swept across 127/128, 255/256 and the capacity against an independent encoder.",
          TB + "the unsafe blocks are modelled as list operations; no sanitizer run.",
          "Lean 4 proof (invariant over operation histories, encoder specification) + differential correspondence", "§7 C17"),
- "C18": ("Lean theorems over a discrete-time model of the receive loop (Model/Timing.lean) for EVERY arrival schedule (any number of datagrams of any kind at any times): the blocking call (one deadline per call, as repaired by the fix commit 4d1c0ae) and the awaited call end no later than timeout + the processing time of one datagram; a silent agent and an agent that only sends non-matching datagrams yield TimeoutError; a matching reply in hand before the deadline is delivered; old_unbounded proves that the pre-repair loop (fresh timeout per recv) has no bound. Tied to the code by running the same schedules through the real sync and async SnmpSession (v1, v2c, v3) on a 50 ms grid with re-confirmation.",
+ "C18": ("Lean theorems over a discrete-time model of the receive loop (Model/Timing.lean) for EVERY arrival schedule (any number of datagrams of any kind at any times): the blocking call (one deadline per call, as repaired by the fix commit 4d1c0ae) and the awaited call end no later than timeout + the processing time of one datagram; a silent agent and an agent that only sends non-matching datagrams yield TimeoutError; a matching reply in hand before the deadline is delivered; old_unbounded proves that the pre-repair loop (fresh timeout per recv) has no bound; the socket option is modelled explicitly (syncRecvS re-arms SO_RCVTIMEO with the remainder, syncCall restores it): armed_is_remaining, call_restores, calls_bounded (every call of any history of calls on one session ends within the configured timeout). Tied to the code by running the same schedules through the real sync and async SnmpSession (v1, v2c, v3) on a 50 ms grid with re-confirmation.",
          TB + "the discrete-time abstraction of SO_RCVTIMEO and asyncio.wait_for; kernel, event loop and thread scheduling are not modelled (wall-clock slack of one tick).",
          "Lean 4 proof (induction over arrival schedules on a discrete-time model) + wall-clock schedule oracle + correspondence", "§7 C18"),
  "C19": ("Lean theorems over an executable model of RPSPolicer.get_timeout for every interval and every admissible history of any length: delay <= one interval; any k+2 consecutive releases span more than k intervals; constructor refusals. Tied to policer.py by running model and implementation on the same generated histories.",
